@@ -1100,6 +1100,39 @@ func ruleR10_5(c *Check) {
 			}
 			root := f.Root().Name
 			key := k.key("creates a file via "+name, w, call)
+			// where create and sync are in one function: the directory synced is the directory the file
+			// was created in (value-log files live in ValueDir, everything else in Dir)
+			switch root {
+			case "badger.logFile.open", "badger.helpRewrite", "badger.WriteKeyRegistry", "badger.DB.handleMemTableFlush":
+				if len(call.Args) >= 1 {
+					p := w.Origin(f, call.Args[0])
+					okDir, n := false, 0
+					for _, o := range f.Occs(sd, 0) {
+						sc, isCall := o.Node.(*ast.CallExpr)
+						if !isCall || len(sc.Args) == 0 {
+							continue
+						}
+						n++
+						d := unparen(sc.Args[len(sc.Args)-1])
+						if dc, isDir := d.(*ast.CallExpr); isDir && w.Callee(dc) == w.Obj("filepath.Dir") && len(dc.Args) == 1 {
+							if types.ExprString(unparen(dc.Args[0])) == types.ExprString(unparen(call.Args[0])) {
+								okDir = true
+							}
+							continue
+						}
+						dText := types.ExprString(d)
+						ast.Inspect(p, func(m ast.Node) bool {
+							if e, isExpr := m.(ast.Expr); isExpr && types.ExprString(unparen(e)) == dText {
+								okDir = true
+							}
+							return true
+						})
+					}
+					if n > 0 {
+						r.Check(okDir, f, key+": the directory synced is the directory of the created file", call, "the file is created at "+short(w, p)+" but no directory sync in "+root+" names that directory (ValueDir and Dir may differ)")
+					}
+				}
+			}
 			switch {
 			case sp == "y":
 				// the y helpers are primitives themselves; their callers are the sites
